@@ -3,6 +3,7 @@ package main
 import (
 	"fmt"
 	"go/token"
+	"go/types"
 
 	"golang.org/x/tools/go/ssa"
 )
@@ -155,22 +156,46 @@ func checkC17(r *Run) {
 		"output = p[:0:len(p)]", "every append guarded by len(output)+len(entry) <= cap(output)", "n = len(output) <= cap(output) = len(p)")
 
 	// (3) one-item look-ahead
+	// Read and the *Readdir methods it calls (the look-ahead step may be extracted into a helper method)
+	type scoped struct {
+		fn   *ssa.Function
+		recv ssa.Value
+	}
+	scope := []scoped{{rd, recv}}
+	for _, g := range r.P.withHelpers(rd, 1)[1:] {
+		if g.Signature.Recv() != nil && len(g.Params) > 0 && types.Identical(g.Params[0].Type(), recv.Type()) {
+			// only when called on Read's own receiver
+			same := true
+			for _, c := range findCalls(rd, fnName(g)) {
+				if len(c.Call.Args) == 0 || c.Call.Args[0] != ssa.Value(recv) {
+					same = false
+				}
+			}
+			if same {
+				scope = append(scope, scoped{g, g.Params[0]})
+			}
+		}
+	}
 	var bufStoreNonNil, bufStoreNil *ssa.Store
-	eachInstr(rd, func(in ssa.Instruction) {
-		st, ok := in.(*ssa.Store)
-		if !ok {
-			return
-		}
-		f, ok := st.Addr.(*ssa.FieldAddr)
-		if !ok || f.X != ssa.Value(recv) || fieldName(f.X.Type(), f.Field) != "buf" {
-			return
-		}
-		if isNilConst(st.Val) {
-			bufStoreNil = st
-		} else {
-			bufStoreNonNil = st
-		}
-	})
+	var bufStoreNilRecv ssa.Value
+	for _, sc := range scope {
+		sc := sc
+		eachInstr(sc.fn, func(in ssa.Instruction) {
+			st, ok := in.(*ssa.Store)
+			if !ok {
+				return
+			}
+			f, ok := st.Addr.(*ssa.FieldAddr)
+			if !ok || f.X != sc.recv || fieldName(f.X.Type(), f.Field) != "buf" {
+				return
+			}
+			if isNilConst(st.Val) {
+				bufStoreNil, bufStoreNilRecv = st, sc.recv
+			} else if sc.fn == rd {
+				bufStoreNonNil = st
+			}
+		})
+	}
 	okSave := false
 	if bufStoreNonNil != nil && marshal != nil {
 		// saved on the does-not-fit edge, and what is saved is the entry that was marshalled
@@ -184,8 +209,28 @@ func checkC17(r *Run) {
 		for _, cd := range condsAtInstr(bufStoreNonNil) {
 			nc := normCond(cd)
 			if b, ok := nc.V.(*ssa.BinOp); ok {
-				if _, isCall := b.Y.(*ssa.Call); isCall && (b.Op == token.GTR) == nc.Truth {
-					okSave = true
+				// the edge says  len(output)+len(entry) > cap(output)  in any spelling: hi - lo has +len and -cap terms
+				var hi, lo ssa.Value
+				switch {
+				case (b.Op == token.GTR && nc.Truth) || (b.Op == token.LEQ && !nc.Truth):
+					hi, lo = b.X, b.Y
+				case (b.Op == token.LSS && nc.Truth) || (b.Op == token.GEQ && !nc.Truth):
+					hi, lo = b.Y, b.X
+				}
+				if hi != nil {
+					d := fa.Lin(hi).Sub(fa.Lin(lo))
+					nLen, nCap := 0, 0
+					for k, c := range d.T {
+						switch {
+						case d.Atoms[k].Op == "len" && c == 1:
+							nLen++
+						case d.Atoms[k].Op == "cap" && c == -1:
+							nCap++
+						}
+					}
+					if nLen >= 1 && nCap == 1 {
+						okSave = true
+					}
 				}
 			}
 		}
@@ -201,30 +246,34 @@ func checkC17(r *Run) {
 	r.Check(okSave, "look-ahead", "Readdir.Read: the entry that does not fit is saved for the next read", rd.Pos(), "an entry that does not fit in this read is dropped (it is never delivered)")
 	// iterator consulted only when the buffer is empty; buffer emptied when consumed
 	nNext := 0
-	eachInstr(rd, func(in ssa.Instruction) {
-		c, ok := in.(*ssa.Call)
-		if !ok || !loadsField(c.Call.Value, recv, "nextfn") {
-			return
-		}
-		nNext++
-		ok2 := false
-		for _, cd := range condsAtInstr(c) {
-			nc := normCond(cd)
-			if b, ok := nc.V.(*ssa.BinOp); ok && (b.Op == token.NEQ || b.Op == token.EQL) {
-				for _, pair := range [][2]ssa.Value{{b.X, b.Y}, {b.Y, b.X}} {
-					if loadsField(pair[0], recv, "buf") && isNilConst(pair[1]) && (b.Op == token.EQL) == nc.Truth {
-						ok2 = true
+	for _, sc := range scope {
+		recv := sc.recv
+		eachInstr(sc.fn, func(in ssa.Instruction) {
+			c, ok := in.(*ssa.Call)
+			if !ok || !loadsField(c.Call.Value, recv, "nextfn") {
+				return
+			}
+			nNext++
+			ok2 := false
+			for _, cd := range condsAtInstr(c) {
+				nc := normCond(cd)
+				if b, ok := nc.V.(*ssa.BinOp); ok && (b.Op == token.NEQ || b.Op == token.EQL) {
+					for _, pair := range [][2]ssa.Value{{b.X, b.Y}, {b.Y, b.X}} {
+						if loadsField(pair[0], recv, "buf") && isNilConst(pair[1]) && (b.Op == token.EQL) == nc.Truth {
+							ok2 = true
+						}
 					}
 				}
 			}
-		}
-		r.Check(ok2, "look-ahead", "Readdir.Read: the iterator is asked for a new entry only when no entry is pending", c.Pos(), "a pending (saved) entry is skipped: the listing loses an entry")
-		e := resultN(c, 1)
-		r.Check(e != nil && len(referrers(e)) > 0, "look-ahead", "Readdir.Read: iterator errors end the read", c.Pos(), "iterator errors are ignored")
-	})
+			r.Check(ok2, "look-ahead", "Readdir.Read: the iterator is asked for a new entry only when no entry is pending", c.Pos(), "a pending (saved) entry is skipped: the listing loses an entry")
+			e := resultN(c, 1)
+			r.Check(e != nil && len(referrers(e)) > 0, "look-ahead", "Readdir.Read: iterator errors end the read", c.Pos(), "iterator errors are ignored")
+		})
+	}
 	r.Floor("look-ahead", nNext, 1, "iterator call")
 	okConsume := false
 	if bufStoreNil != nil {
+		recv := bufStoreNilRecv
 		for _, cd := range condsAtInstr(bufStoreNil) {
 			nc := normCond(cd)
 			if b, ok := nc.V.(*ssa.BinOp); ok && (b.Op == token.NEQ || b.Op == token.EQL) {
@@ -397,7 +446,13 @@ func c17SessionSubstitutes(r *Run) {
 		return false
 	}
 	nR := 0
-	for _, c := range findCalls(ol, "p9p.NewReaddir") {
+	olFns := p.withHelpers(ol, 1)
+	var newRd, opens []*ssa.Call
+	for _, f := range olFns {
+		newRd = append(newRd, findCalls(f, "p9p.NewReaddir")...)
+		opens = append(opens, findCallsInvoke(f, "Open", "Dirent")...)
+	}
+	for _, c := range newRd {
 		nR++
 		okArg := false
 		if ex, ok := stripConv(c.Call.Args[1]).(*ssa.Extract); ok && ex.Index == 0 {
@@ -408,7 +463,7 @@ func c17SessionSubstitutes(r *Run) {
 		r.Check(isDirEdge(c, true) && okArg, "substitute", "openLocked: directories get a Readdir over Dirent.OpenDir", c.Pos(), "the directory reader is not built from the entry's OpenDir on the is-directory edge")
 	}
 	r.Floor("substitute", nR, 1, "NewReaddir in openLocked")
-	for _, c := range findCallsInvoke(ol, "Open", "Dirent") {
+	for _, c := range opens {
 		r.Check(isDirEdge(c, false), "substitute", "openLocked: Dirent.Open is not called for directories", c.Pos(), "directories are opened as plain files: directory reads are not packed into whole entries")
 	}
 	// the stored File is what was opened
